@@ -168,6 +168,61 @@ def install(reg):
         return os_replace(p, args, kw)
     E["os.rename"] = os_rename
 
+    def shutil_move(p, args, kw):
+        """assumed contract: os.rename when possible; across file systems it degrades to copy (open(dst,'wb') truncates,
+        then the bytes are streamed) followed by removal of the source -- NOT atomic"""
+        fs = fs_of(p)
+        src, dst = str_term(p, args[0]), str_term(p, args[1])
+        maybe_oserror(p, "move")
+        if not p.branch(z3.Select(fs.kind, src) == FILE):
+            p.raise_("FileNotFoundError")
+        p.engine.assumption("shutil.move: atomic rename on one file system, copy+remove (non-atomic) across file systems")
+        if p.branch(p.fresh("move_same_filesystem", B)):
+            return os_replace(p, args, kw)
+        d = z3.Select(fs.data, src)
+        fs.kind = z3.Store(fs.kind, dst, FILE)
+        fs.data = z3.Store(fs.data, dst, z3.Empty(BYTES))
+        effect(p, "truncate", dst)
+        k = p.fresh("move_copied", I)
+        p.assume(z3.And(k >= 0, k <= z3.Length(d)))
+        saved = fs.data
+        fs.data = z3.Store(saved, dst, z3.SubSeq(d, 0, k))
+        crash_point(p, "move-copy-partial")
+        if p.ghost.get("fs_faults") and p.branch(p.fresh("fault_move_copy", B)):
+            effect(p, "write-partial", dst)
+            p.raise_("OSError")
+        fs.data = z3.Store(saved, dst, d)
+        effect(p, "write", dst)
+        fs.kind = z3.Store(fs.kind, src, ABSENT)
+        effect(p, "remove", src)
+        return VStr(dst)
+    E["shutil.move"] = shutil_move
+
+    def os_write(p, args, kw):
+        """os.write(fd, data): may write only a prefix and says so through its return value (no exception)"""
+        fs = fs_of(p)
+        fd = p.deref(args[0])
+        if not isinstance(fd, HObj) or fd.cls != "fd":
+            raise Unsupported("os.write on unknown descriptor")
+        t = p.bytes_term(p.unbox(args[1]))
+        if t is None:
+            raise Unsupported("os.write of non-bytes")
+        maybe_oserror(p, "oswrite")
+        path_t = fd.fields["path"].t
+        n = p.fresh("oswrite_count", I)
+        p.assume(z3.And(n >= 0, n <= z3.Length(t)))
+        if not p.ghost.get("fs_faults"):
+            p.assume(n == z3.Length(t))
+        cur = z3.Select(fs.data, path_t)
+        fs.data = z3.Store(fs.data, path_t, z3.Concat(cur, z3.SubSeq(t, 0, n)))
+        effect(p, "write", path_t)
+        return VInt(n)
+    E["os.write"] = os_write
+
+    def os_close(p, args, kw):
+        return VNone()
+    E["os.close"] = os_close
+
     def os_mkdir(p, args, kw):
         fs = fs_of(p)
         t = str_term(p, args[0])
